@@ -14,9 +14,9 @@ C16, theorem gaps closed after the second review (gap round):
   `c16.togrid`): the new field holds the interpolant at the centres of the new cells; to the same grid it is the
   identity (any `eps ≤ 1`, every mode); beyond the source it raises / fills.
 * interpolation with boundary conditions on the padded array the conditions DEFINE (`padFull`, tied by `c16.pad`
-  against the real `_data_full`): `padFull1`, `padFull2_x`, `padFull2_y`, `padFull3_x`, `padFull2_corner` (ghost
+  against the real `_data_full`): `padFull1`, `padFull2_x`, `padFull2_y`, `padFull3_x/y/z`, `padFull2_corner` (ghost
   cells as functions of the imposed value / derivative, corner = mean), `bc_mode_approaches_imposed_condition`
-  (1 axis, both faces), `..2`, `..2_y` (2 axes, all four faces), `..3` (3 axes, the faces of the first axis),
+  (1 axis, both faces), `..2`, `..2_y` (2 axes, all four faces), `..3`, `..3_y`, `..3_z` (3 axes, all six faces),
   `.._eps`, `..2_eps` (the code's clipping constant); `bc_mode_corner_square2` (the value in a corner square),
   `bc_mode_corner_square_value_on_face`, `bc_mode_corner_square_misses_imposed_value` (kernel-checked witness of
   the known finding "corner square": on the face the imposed value is missed by `(1-σ)(v-cell)/2`).
@@ -763,6 +763,153 @@ theorem bc_mode_approaches_imposed_condition3 {eps : K} (he : eps ≤ 0) (fill :
     multilinear_between_centres2 he true fill pb.ax pc.ax hdy hdz _ j k hj0 hj1 hk0 hk1 ht0 ht1 hu0 hu1,
     multilinear_between_centres2 he true fill pb.ax pc.ax hdy hdz _ j k hj0 hj1 hk0 hk1 ht0 ht1 hu0 hu1]
   simp only [shift, if_true]
+  rw [a1, a2, a3, a4, b1, b2, b3, b4, c1, c2, c3, c4, d1, d2, d3, d4]
+  simp only [ghostLine_ghostOf, and_self]
+
+/-! ### 3 axes: the faces of the second and third axis -/
+
+theorem padAux3_ghost_y (pa pb pc : PadAxis K) (data : Idx → K) (fuel : Nat) {i j k : Int}
+    (hi : isGhostAt pa i = false) (hj : isGhostAt pb j = true) (hk : isGhostAt pc k = false) :
+    padAux [pa, pb, pc] data (fuel + 1) [i, j, k]
+      = ghostOf (if j = 0 then pb.lower else pb.upper) pb.ax.dx
+          (padAux [pa, pb, pc] data fuel [i, inwardOf pb j, k]) := by
+  simp [padAux, ghostAxesFrom, hi, hj, hk, faceAt, inwardAt]
+
+theorem padAux3_ghost_z (pa pb pc : PadAxis K) (data : Idx → K) (fuel : Nat) {i j k : Int}
+    (hi : isGhostAt pa i = false) (hj : isGhostAt pb j = false) (hk : isGhostAt pc k = true) :
+    padAux [pa, pb, pc] data (fuel + 1) [i, j, k]
+      = ghostOf (if k = 0 then pc.lower else pc.upper) pc.ax.dx
+          (padAux [pa, pb, pc] data fuel [i, j, inwardOf pc k]) := by
+  simp [padAux, ghostAxesFrom, hi, hj, hk, faceAt, inwardAt]
+
+theorem padFull3_y (pa pb pc : PadAxis K) (hpb : pb.ax.periodic = false) (hsy : 1 ≤ pb.ax.size)
+    (data : Idx → K) (i k : Int) (hi0 : 0 ≤ i) (hi1 : i < pa.ax.size) (hk0 : 0 ≤ k)
+    (hk1 : k < pc.ax.size) :
+    padFull [pa, pb, pc] data [i + 1, 1, k + 1] = data [i, 0, k] ∧
+    padFull [pa, pb, pc] data [i + 1, 0, k + 1] = ghostOf pb.lower pb.ax.dx (data [i, 0, k]) ∧
+    padFull [pa, pb, pc] data [i + 1, pb.ax.size, k + 1] = data [i, pb.ax.size - 1, k] ∧
+    padFull [pa, pb, pc] data [i + 1, pb.ax.size + 1, k + 1]
+      = ghostOf pb.upper pb.ax.dx (data [i, pb.ax.size - 1, k]) := by
+  have gi : isGhostAt pa (i + 1) = false := isGhostAt_valid pa (by omega) (by omega)
+  have gk : isGhostAt pc (k + 1) = false := isGhostAt_valid pc (by omega) (by omega)
+  have hv : ∀ j, 0 ≤ j → j < pb.ax.size → ∀ fuel,
+      padAux [pa, pb, pc] data (fuel + 1) [i + 1, j + 1, k + 1] = data [i, j, k] := by
+    intro j j0 j1 fuel
+    rw [padAux3_valid pa pb pc data fuel gi (isGhostAt_valid pb (by omega) (by omega)) gk,
+      unpad_valid pa hi0 hi1, unpad_valid pb j0 j1, unpad_valid pc hk0 hk1]
+  have v0 := hv 0 (le_refl 0) (by omega)
+  have v1 := hv (pb.ax.size - 1) (by omega) (by omega)
+  simp only [zero_add, sub_add_cancel] at v0 v1
+  have e5 : ¬ (pb.ax.size + 1 = 0) := by omega
+  refine ⟨v0 _, ?_, v1 _, ?_⟩
+  · unfold padFull
+    rw [show ([pa, pb, pc].length + 1 : Nat) = 3 + 1 from rfl,
+      padAux3_ghost_y pa pb pc data _ gi (isGhostAt_lower pb hpb) gk]
+    simp [inwardOf, v0 2]
+  · unfold padFull
+    rw [show ([pa, pb, pc].length + 1 : Nat) = 3 + 1 from rfl,
+      padAux3_ghost_y pa pb pc data _ gi (isGhostAt_upper pb hpb) gk]
+    simp [inwardOf, v1 2, e5]
+
+theorem padFull3_z (pa pb pc : PadAxis K) (hpc : pc.ax.periodic = false) (hsz : 1 ≤ pc.ax.size)
+    (data : Idx → K) (i j : Int) (hi0 : 0 ≤ i) (hi1 : i < pa.ax.size) (hj0 : 0 ≤ j)
+    (hj1 : j < pb.ax.size) :
+    padFull [pa, pb, pc] data [i + 1, j + 1, 1] = data [i, j, 0] ∧
+    padFull [pa, pb, pc] data [i + 1, j + 1, 0] = ghostOf pc.lower pc.ax.dx (data [i, j, 0]) ∧
+    padFull [pa, pb, pc] data [i + 1, j + 1, pc.ax.size] = data [i, j, pc.ax.size - 1] ∧
+    padFull [pa, pb, pc] data [i + 1, j + 1, pc.ax.size + 1]
+      = ghostOf pc.upper pc.ax.dx (data [i, j, pc.ax.size - 1]) := by
+  have gi : isGhostAt pa (i + 1) = false := isGhostAt_valid pa (by omega) (by omega)
+  have gj : isGhostAt pb (j + 1) = false := isGhostAt_valid pb (by omega) (by omega)
+  have hv : ∀ k, 0 ≤ k → k < pc.ax.size → ∀ fuel,
+      padAux [pa, pb, pc] data (fuel + 1) [i + 1, j + 1, k + 1] = data [i, j, k] := by
+    intro k k0 k1 fuel
+    rw [padAux3_valid pa pb pc data fuel gi gj (isGhostAt_valid pc (by omega) (by omega)),
+      unpad_valid pa hi0 hi1, unpad_valid pb hj0 hj1, unpad_valid pc k0 k1]
+  have v0 := hv 0 (le_refl 0) (by omega)
+  have v1 := hv (pc.ax.size - 1) (by omega) (by omega)
+  simp only [zero_add, sub_add_cancel] at v0 v1
+  have e5 : ¬ (pc.ax.size + 1 = 0) := by omega
+  refine ⟨v0 _, ?_, v1 _, ?_⟩
+  · unfold padFull
+    rw [show ([pa, pb, pc].length + 1 : Nat) = 3 + 1 from rfl,
+      padAux3_ghost_z pa pb pc data _ gi gj (isGhostAt_lower pc hpc)]
+    simp [inwardOf, v0 2]
+  · unfold padFull
+    rw [show ([pa, pb, pc].length + 1 : Nat) = 3 + 1 from rfl,
+      padAux3_ghost_z pa pb pc data _ gi gj (isGhostAt_upper pc hpc)]
+    simp [inwardOf, v1 2, e5]
+
+/-- **3 axes, the two faces of the second axis** -/
+theorem bc_mode_approaches_imposed_condition3_y {eps : K} (he : eps ≤ 0) (fill : Option K)
+    (pa pb pc : PadAxis K) (hpb : pb.ax.periodic = false) (hsy : 1 ≤ pb.ax.size)
+    (hdx : pa.ax.dx ≠ 0) (hdy : pb.ax.dx ≠ 0) (hdz : pc.ax.dx ≠ 0) (data : Idx → K) (i k : Int)
+    (hi0 : 0 ≤ i) (hi1 : i + 1 < pa.ax.size) (hk0 : 0 ≤ k) (hk1 : k + 1 < pc.ax.size)
+    {τ t u : K} (h0 : 0 ≤ τ) (h1 : τ ≤ 1) (ht0 : 0 ≤ t) (ht1 : t < 1) (hu0 : 0 ≤ u) (hu1 : u < 1) :
+    interp3 eps true false fill pa.ax pb.ax pc.ax (padFull [pa, pb, pc] data)
+        (centre pa.ax i + t * pa.ax.dx) (pb.ax.lo + τ * (pb.ax.dx / 2)) (centre pc.ax k + u * pc.ax.dx)
+      = some (lerp t
+          (lerp u (bcLine pb.lower pb.ax.dx (data [i, 0, k]) τ)
+            (bcLine pb.lower pb.ax.dx (data [i, 0, k + 1]) τ))
+          (lerp u (bcLine pb.lower pb.ax.dx (data [i + 1, 0, k]) τ)
+            (bcLine pb.lower pb.ax.dx (data [i + 1, 0, k + 1]) τ))) ∧
+    interp3 eps true false fill pa.ax pb.ax pc.ax (padFull [pa, pb, pc] data)
+        (centre pa.ax i + t * pa.ax.dx) (upperEnd pb.ax - τ * (pb.ax.dx / 2))
+        (centre pc.ax k + u * pc.ax.dx)
+      = some (lerp t
+          (lerp u (bcLine pb.upper pb.ax.dx (data [i, pb.ax.size - 1, k]) τ)
+            (bcLine pb.upper pb.ax.dx (data [i, pb.ax.size - 1, k + 1]) τ))
+          (lerp u (bcLine pb.upper pb.ax.dx (data [i + 1, pb.ax.size - 1, k]) τ)
+            (bcLine pb.upper pb.ax.dx (data [i + 1, pb.ax.size - 1, k + 1]) τ))) := by
+  obtain ⟨g1, g2⟩ := (ghost_mode_linear_to_bc_value3 he fill pa.ax pb.ax pc.ax
+    (padFull [pa, pb, pc] data) (centre pa.ax i + t * pa.ax.dx) 0 (centre pc.ax k + u * pc.ax.dx)
+    h0 h1).2.1 hpb hsy hdy
+  obtain ⟨a1, a2, a3, a4⟩ := padFull3_y pa pb pc hpb hsy data i k hi0 (by omega) hk0 (by omega)
+  obtain ⟨b1, b2, b3, b4⟩ := padFull3_y pa pb pc hpb hsy data i (k + 1) hi0 (by omega) (by omega) hk1
+  obtain ⟨c1, c2, c3, c4⟩ := padFull3_y pa pb pc hpb hsy data (i + 1) k (by omega) hi1 hk0 (by omega)
+  obtain ⟨d1, d2, d3, d4⟩ :=
+    padFull3_y pa pb pc hpb hsy data (i + 1) (k + 1) (by omega) hi1 (by omega) hk1
+  rw [g1, g2,
+    multilinear_between_centres2 he true fill pa.ax pc.ax hdx hdz _ i k hi0 hi1 hk0 hk1 ht0 ht1 hu0 hu1,
+    multilinear_between_centres2 he true fill pa.ax pc.ax hdx hdz _ i k hi0 hi1 hk0 hk1 ht0 ht1 hu0 hu1]
+  simp only [shift, if_true, List.take_succ_cons, List.take_zero, List.drop_succ_cons, List.drop_zero,
+    List.cons_append, List.nil_append]
+  rw [a1, a2, a3, a4, b1, b2, b3, b4, c1, c2, c3, c4, d1, d2, d3, d4]
+  simp only [ghostLine_ghostOf, and_self]
+
+/-- **3 axes, the two faces of the third axis** -/
+theorem bc_mode_approaches_imposed_condition3_z {eps : K} (he : eps ≤ 0) (fill : Option K)
+    (pa pb pc : PadAxis K) (hpc : pc.ax.periodic = false) (hsz : 1 ≤ pc.ax.size)
+    (hdx : pa.ax.dx ≠ 0) (hdy : pb.ax.dx ≠ 0) (hdz : pc.ax.dx ≠ 0) (data : Idx → K) (i j : Int)
+    (hi0 : 0 ≤ i) (hi1 : i + 1 < pa.ax.size) (hj0 : 0 ≤ j) (hj1 : j + 1 < pb.ax.size)
+    {τ t u : K} (h0 : 0 ≤ τ) (h1 : τ ≤ 1) (ht0 : 0 ≤ t) (ht1 : t < 1) (hu0 : 0 ≤ u) (hu1 : u < 1) :
+    interp3 eps true false fill pa.ax pb.ax pc.ax (padFull [pa, pb, pc] data)
+        (centre pa.ax i + t * pa.ax.dx) (centre pb.ax j + u * pb.ax.dx) (pc.ax.lo + τ * (pc.ax.dx / 2))
+      = some (lerp t
+          (lerp u (bcLine pc.lower pc.ax.dx (data [i, j, 0]) τ)
+            (bcLine pc.lower pc.ax.dx (data [i, j + 1, 0]) τ))
+          (lerp u (bcLine pc.lower pc.ax.dx (data [i + 1, j, 0]) τ)
+            (bcLine pc.lower pc.ax.dx (data [i + 1, j + 1, 0]) τ))) ∧
+    interp3 eps true false fill pa.ax pb.ax pc.ax (padFull [pa, pb, pc] data)
+        (centre pa.ax i + t * pa.ax.dx) (centre pb.ax j + u * pb.ax.dx)
+        (upperEnd pc.ax - τ * (pc.ax.dx / 2))
+      = some (lerp t
+          (lerp u (bcLine pc.upper pc.ax.dx (data [i, j, pc.ax.size - 1]) τ)
+            (bcLine pc.upper pc.ax.dx (data [i, j + 1, pc.ax.size - 1]) τ))
+          (lerp u (bcLine pc.upper pc.ax.dx (data [i + 1, j, pc.ax.size - 1]) τ)
+            (bcLine pc.upper pc.ax.dx (data [i + 1, j + 1, pc.ax.size - 1]) τ))) := by
+  obtain ⟨g1, g2⟩ := (ghost_mode_linear_to_bc_value3 he fill pa.ax pb.ax pc.ax
+    (padFull [pa, pb, pc] data) (centre pa.ax i + t * pa.ax.dx) (centre pb.ax j + u * pb.ax.dx) 0
+    h0 h1).2.2 hpc hsz hdz
+  obtain ⟨a1, a2, a3, a4⟩ := padFull3_z pa pb pc hpc hsz data i j hi0 (by omega) hj0 (by omega)
+  obtain ⟨b1, b2, b3, b4⟩ := padFull3_z pa pb pc hpc hsz data i (j + 1) hi0 (by omega) (by omega) hj1
+  obtain ⟨c1, c2, c3, c4⟩ := padFull3_z pa pb pc hpc hsz data (i + 1) j (by omega) hi1 hj0 (by omega)
+  obtain ⟨d1, d2, d3, d4⟩ :=
+    padFull3_z pa pb pc hpc hsz data (i + 1) (j + 1) (by omega) hi1 (by omega) hj1
+  rw [g1, g2,
+    multilinear_between_centres2 he true fill pa.ax pb.ax hdx hdy _ i j hi0 hi1 hj0 hj1 ht0 ht1 hu0 hu1,
+    multilinear_between_centres2 he true fill pa.ax pb.ax hdx hdy _ i j hi0 hi1 hj0 hj1 ht0 ht1 hu0 hu1]
+  simp only [shift, if_true, List.cons_append, List.nil_append]
   rw [a1, a2, a3, a4, b1, b2, b3, b4, c1, c2, c3, c4, d1, d2, d3, d4]
   simp only [ghostLine_ghostOf, and_self]
 
